@@ -284,7 +284,10 @@ def condsMatch (c : Circuit) (nodes : Array CNode) (bind : Nat → Option Bind) 
     List Cond → List (CmpOp × Arg × Arg) → Bool
   | [], [] => true
   | cd :: cds, (op, a, b) :: rest =>
-    !cd.usesEach && cd.op == op && matchOperand c nodes bind e cd.first a && matchOperand c nodes bind e cd.second b &&
+    !cd.usesEach &&
+      ((cd.op == op && matchOperand c nodes bind e cd.first a && matchOperand c nodes bind e cd.second b) ||
+       -- the row written the other way round (`k op x` is emitted as `x op.mirror k`)
+       (cd.op == op.mirror && matchOperand c nodes bind e cd.first b && matchOperand c nodes bind e cd.second a)) &&
       condsMatch c nodes bind e cds rest
   | _, _ => false
 
@@ -374,9 +377,9 @@ def lowerings (nodes : Array CNode) : Nat → Nat → List VExpr
           (match op, a with
            | .sub, .int k => if k == 0 then [VExpr.alu .mul (.arg b) (.arg (.int (i32 (-1))))] else []
            | _, _ => [])
-      | .cmp op a b _ => [.cmpB op (.arg a) (.arg b)]
+      | .cmp op a b _ => [.cmpB op (.arg a) (.arg b), .cmpB op.mirror (.arg b) (.arg a)]
       | .lnot a _ => [.cmpB .eq (.arg a) (.arg (.int 0))]
-      | .gate op a b v _ => [.gate op (.arg a) (.arg b) v]
+      | .gate op a b v _ => [.gate op (.arg a) (.arg b) v, .gate op.mirror (.arg b) (.arg a) v]
       | .proj a _ =>
         VExpr.alu .add (.arg a) (.arg (.int 0)) ::
           (match a with
@@ -410,6 +413,12 @@ def checkQuant (c : Circuit) (nodes : Array CNode) (bind : Nat → Option Bind) 
      | _, _ => false)
   | _, _ => false
 
+/-- constant folding: node `n` has constant leaves only and entity `e` is the constant combinator holding its value -/
+def foldedIs (c : Circuit) (nodes : Array CNode) (n e : Nat) (s : Sig) : Bool :=
+  match c.kind e, constVal nodes (n + 1) n with
+  | .const [(t, v)], some k => t == s && v == k
+  | _, _ => false
+
 /-- node `nd` (at index `n`) is computed by entity `e` on signal `s` -/
 def checkEnt (c : Circuit) (nodes : Array CNode) (bind : Nat → Option Bind) (n : Nat) (nd : CNode) (e : Nat) (s : Sig) : Bool :=
   match nd with
@@ -417,7 +426,7 @@ def checkEnt (c : Circuit) (nodes : Array CNode) (bind : Nat → Option Bind) (n
   | .const _ v => (match c.kind e with | .const [(t, v')] => t == s && v == v' | _ => false)
   | .anyCmp b op rhs out _ => checkQuant c nodes bind n true b op rhs out e s
   | .allCmp b op rhs out _ => checkQuant c nodes bind n false b op rhs out e s
-  | _ => (lowerings nodes (n + 1) n).any (fun x => x.under n && entIs c nodes bind x e s)
+  | _ => foldedIs c nodes n e s || (lowerings nodes (n + 1) n).any (fun x => x.under n && entIs c nodes bind x e s)
 
 /-- the entities whose wire-sum on `s` is scalar node `m` -/
 def scalarEnts (bind : Nat → Option Bind) (s : Sig) (a : Arg) : Option (List Nat) :=
@@ -570,6 +579,12 @@ def quantCondOK (c : Circuit) (nodes : Array CNode) (bind : Nat → Option Bind)
    | _ => false) &&
   cd.op == op && cd.second.isPlain && matchOperand c nodes bind e cd.second rhs
 
+/-- condition `cd` of entity `i` is `a op b`, written either way round -/
+def condIs (c : Circuit) (nodes : Array CNode) (bind : Nat → Option Bind) (i : Nat) (cd : Cond) (op : CmpOp) (a b : Arg) : Bool :=
+  cd.first.isPlain && !cd.usesEach &&
+  ((cd.op == op && matchOperand c nodes bind i cd.first a && matchOperand c nodes bind i cd.second b) ||
+   (cd.op == op.mirror && matchOperand c nodes bind i cd.first b && matchOperand c nodes bind i cd.second a))
+
 /-- the circuit condition of the controlled entity `i` holds exactly when the value of `w` is positive:
 either the condition is `w > 0` on the wire carrying `w`, or `w` is a comparison inlined into the entity -/
 def enableIs (c : Circuit) (nodes : Array CNode) (bind : Nat → Option Bind) (i : Nat) (w : Arg) : Bool :=
@@ -582,8 +597,7 @@ def enableIs (c : Circuit) (nodes : Array CNode) (bind : Nat → Option Bind) (i
      | .node m =>
        (match nodes[m]? with
         | some (.cmp op a b _) =>
-          argBelow m a && argBelow m b && cd.op == op && cd.first.isPlain && !cd.usesEach &&
-            matchOperand c nodes bind i cd.first a && matchOperand c nodes bind i cd.second b
+          argBelow m a && argBelow m b && condIs c nodes bind i cd op a b
         | some (.anyCmp bn op rhs none _) => quantCondOK c nodes bind m true bn op rhs i cd
         | some (.allCmp bn op rhs none _) => quantCondOK c nodes bind m false bn op rhs i cd
         | some (.lnot a _) =>
@@ -591,8 +605,7 @@ def enableIs (c : Circuit) (nodes : Array CNode) (bind : Nat → Option Bind) (i
             matchOperand c nodes bind i cd.first a && (match cd.second with | .const k => k == 0 | _ => false)
         | some (.gate op a b (.int k) _) =>
           -- `(a op b) : k` with a positive constant is positive exactly when the comparison holds
-          Facto.cmp .gt k 0 && argBelow m a && argBelow m b && cd.op == op && cd.first.isPlain && !cd.usesEach &&
-            matchOperand c nodes bind i cd.first a && matchOperand c nodes bind i cd.second b
+          Facto.cmp .gt k 0 && argBelow m a && argBelow m b && condIs c nodes bind i cd op a b
         | _ => false)
      | _ => false)
   | _ => false
@@ -622,9 +635,9 @@ def plausible (nodes : Array CNode) (m : Nat) (k : Kind) : Bool :=
   | some (.arith op _ _ _), .arith cfg => cfg.op == op || (op == .sub && cfg.op == .mul)
   | some (.proj ..), .arith _ => true
   | some (.proj ..), .decider _ => true
-  | some (.cmp op _ _ _), .decider cfg => (match cfg.conds with | [cd] => cd.op == op | _ => false)
+  | some (.cmp op _ _ _), .decider cfg => (match cfg.conds with | [cd] => cd.op == op || cd.op == op.mirror | _ => false)
   | some (.lnot ..), .decider cfg => (match cfg.conds with | [cd] => cd.op == .eq | _ => false)
-  | some (.gate op _ _ _ _), .decider cfg => (match cfg.conds with | [cd] => cd.op == op | _ => false)
+  | some (.gate op _ _ _ _), .decider cfg => (match cfg.conds with | [cd] => cd.op == op || cd.op == op.mirror | _ => false)
   | some (.land ..), .arith cfg => cfg.op == .mul
   | some (.land ..), .decider cfg => cfg.conds.length ≥ 2
   | some (.lor ..), .decider cfg => (match cfg.conds with | [cd] => cd.op == .gt | _ => true)
@@ -663,12 +676,22 @@ def proposeOp (c : Circuit) (nodes : Array CNode) (rec : Nat → Sig → Option 
 def proposeConds (c : Circuit) (nodes : Array CNode) (e : Nat) : List Cond → List (CmpOp × Arg × Arg) → Option Props
   | [], [] => some []
   | cd :: cds, (op, a, b) :: rest =>
-    if cd.op == op then do
-      let p1 ← proposeArg c nodes e cd.first a
-      let p2 ← proposeArg c nodes e cd.second b
+    let straight : Option Props := if cd.op == op then do
+        let p1 ← proposeArg c nodes e cd.first a
+        let p2 ← proposeArg c nodes e cd.second b
+        pure (p1 ++ p2)
+      else none
+    let row : Option Props := match straight with
+      | some p => some p
+      | none => if cd.op == op.mirror then do
+          let p1 ← proposeArg c nodes e cd.first b
+          let p2 ← proposeArg c nodes e cd.second a
+          pure (p1 ++ p2)
+        else none
+    do
+      let p ← row
       let p3 ← proposeConds c nodes e cds rest
-      pure (p1 ++ p2 ++ p3)
-    else none
+      pure (p ++ p3)
   | _, _ => none
 
 /-- if entity `e` has the shape of `x`, the bindings its leaves would need -/
@@ -790,7 +813,10 @@ def proposeEnable (c : Circuit) (nodes : Array CNode) (i : Nat) (w : Arg) : Prop
       | .node m =>
         (match (nodes[m]? : Option CNode) with
          | some (.cmp op a b _) =>
-           if cd.op == op then ((proposeArg c nodes i cd.first a).getD []) ++ ((proposeArg c nodes i cd.second b).getD []) else []
+           if cd.op == op && (proposeArg c nodes i cd.first a).isSome && (proposeArg c nodes i cd.second b).isSome then
+             ((proposeArg c nodes i cd.first a).getD []) ++ ((proposeArg c nodes i cd.second b).getD [])
+           else if cd.op == op.mirror then ((proposeArg c nodes i cd.first b).getD []) ++ ((proposeArg c nodes i cd.second a).getD [])
+           else []
          | some (.anyCmp bn _ rhs none _) =>
            (match cd.first with | .ref _ sel => [(bn, Bind.many (c.loud i sel))] | _ => []) ++ ((proposeArg c nodes i cd.second rhs).getD [])
          | some (.allCmp bn _ rhs none _) =>
@@ -798,7 +824,10 @@ def proposeEnable (c : Circuit) (nodes : Array CNode) (i : Nat) (w : Arg) : Prop
          | some (.lnot a _) =>
            if cd.op == .eq && (match cd.second with | .const k => k == 0 | _ => false) then (proposeArg c nodes i cd.first a).getD [] else []
          | some (.gate op a b (.int _) _) =>
-           if cd.op == op then ((proposeArg c nodes i cd.first a).getD []) ++ ((proposeArg c nodes i cd.second b).getD []) else []
+           if cd.op == op && (proposeArg c nodes i cd.first a).isSome && (proposeArg c nodes i cd.second b).isSome then
+             ((proposeArg c nodes i cd.first a).getD []) ++ ((proposeArg c nodes i cd.second b).getD [])
+           else if cd.op == op.mirror then ((proposeArg c nodes i cd.first b).getD []) ++ ((proposeArg c nodes i cd.second a).getD [])
+           else []
          | _ => [])
       | _ => []
     -- an inlined comparison wins when its shape fits (the value node then has no combinator)
